@@ -334,6 +334,9 @@ static int opt_work (
 		{
 			if (p->basis == 0)
 				p->lp->basisid = -1;
+			/* dual norms left by an earlier dual solve may be sized for a problem
+			 * that has since grown; grab_basis would read them after this solve */
+			EGLPNUM_TYPENAME_ILLprice_free_pricing_info (p->pricing);
 			rval = EGLPNUM_TYPENAME_ILLlib_optimize (p->lp, p->basis, p->pricing, PRIMAL_SIMPLEX,
 															&rstatus, p->simplex_display, &(p->itcnt));
 		}
